@@ -256,6 +256,44 @@ func vpH_C04_gobshapes() {
 	vpReach("end")
 }
 
+// WORK: decoding does work proportional to the document. The measure is one the native build can
+// observe too: the number of values the decoder asks the type registry for. A chain of d objects
+// nested through one item-valued term must not make the decoder build more than a small multiple of
+// d values (a term read twice at every level would make it 2^d).
+func vpC04Work(depth int) {
+	typ := vpC04Skeletons[vpChoice(len(vpC04Skeletons)-1)]
+	term := vpDecoderTerms[vpChoice(len(vpDecoderTerms))]
+	if term == "type" || term == "id" {
+		vpReach("end")
+		return
+	}
+	var b []byte
+	for i := 0; i < depth; i++ {
+		b = append(b, `{"id":"https://h.ex/`...)
+		b = append(b, 'a'+byte(i))
+		b = append(b, `","type":"`+typ+`","`+term+`":`...)
+	}
+	b = append(b, `"https://h.ex/leaf"`...)
+	for i := 0; i < depth; i++ {
+		b = append(b, '}')
+	}
+	calls := 0
+	save := ItemTyperFunc
+	ItemTyperFunc = func(t ActivityVocabularyType) (Item, error) {
+		calls++
+		return GetItemByType(t)
+	}
+	p := vpMayPanic(func() { _, _ = UnmarshalJSON(b) })
+	ItemTyperFunc = save
+	cell := typ + "/" + term
+	vpAssert("work/no-panic/"+cell, !p)
+	vpAssert("work/values-built-proportional-to-document/"+cell, calls <= 3*depth)
+	vpReach("end")
+}
+
+func vpH_C04_work6()  { vpC04Work(6) }
+func vpT_C04_work10() { vpC04Work(10) }
+
 func vpW_C04_twin() {
 	_, _ = UnmarshalJSON(vpBytes(1))
 	vpAssert("twin", false)
